@@ -467,3 +467,28 @@ package scanner
 //@   ensures panics <==> c != 'l'
 //@   ensures panics ==> typeis(pv, errors.DocumentError)
 //@   ensures normal ==> result == scanContinue && s.step == stateEndValue && !s.unfinishedLiteral
+
+// ---- C03/C13: type shortcuts `@a | @b`: a name starts with '@' followed by at least
+// one name byte; after '|' only blanks (space, tab) and the next '@' may follow ----
+//@ func stateTypesShortcutBeginOfSchemaName(s, c)
+//@   props C03 C13
+//@   requires s != nil && 1 <= s.index && s.index <= len(s.data)
+//@   maypanic
+//@   modifies s.step
+//@   ensures panics <==> !isNameByte(c)
+//@   ensures panics ==> typeis(pv, errors.DocumentError)
+//@   ensures normal ==> result == scanContinue && s.step == stateTypesShortcutSchemaName
+//@ func stateTypesShortcutAfterPipe(s, c)
+//@   props C03 C13
+//@   requires s != nil && 1 <= s.index && s.index <= len(s.data)
+//@   maypanic
+//@   modifies s.step
+//@   ensures panics <==> !(c == ' ' || c == 9 || c == '@')
+//@   ensures panics ==> typeis(pv, errors.DocumentError)
+//@   ensures normal ==> result == scanContinue && s.step == (c == '@' ? stateTypesShortcutBeginOfSchemaName : stateTypesShortcutAfterPipe)
+//@ func stateKeyShortcut(s, c)
+//@   props C03 C13
+//@   requires s != nil && s.stack != nil && s.returnToStep != nil && s.prevContextsStack != nil && 1 <= s.index && s.index <= len(s.data)
+//@   maypanic
+//@   modifies *
+//@   ensures isNameByte(c) ==> normal && result == scanContinue && s.step == stateKeyShortcut
